@@ -66,15 +66,15 @@ func (h *RPMHeader) Ints(tag int) []int64 {
 
 // RPMFile is one file of the header's file list.
 type RPMFile struct {
-	Name     string
-	Size     int64
-	Mode     int64
-	MTime    int64
-	Digest   string
-	LinkTo   string
-	Flags    int64
-	User     string
-	Group    string
+	Name   string
+	Size   int64
+	Mode   int64
+	MTime  int64
+	Digest string
+	LinkTo string
+	Flags  int64
+	User   string
+	Group  string
 }
 
 // CpioEntry is one newc cpio member.
